@@ -34,7 +34,7 @@ def _pick(rng, seq, weights=None):
     return rng.choices(seq, weights=weights, k=1)[0]
 
 
-def gen_spec(rng):
+def gen_spec(rng, tier="quick"):
     if rng.random() < 0.6:
         spec = {"kind": "hand", "n": rng.randrange(1, 7),
                 "d": _pick(rng, [2, 2, 3]), "chi": rng.randrange(1, 6),
@@ -63,7 +63,7 @@ def gen_spec(rng):
         spec["layout"] = _pick(rng, ["c", "c", "f", "view"])
         if rng.random() < 0.04:
             # long process tensors (anything done in chunks or every N steps)
-            spec["n"] = rng.randrange(33, 71)
+            spec["n"] = rng.randrange(33, 101 if tier == "quick" else 200)
             spec["chi"] = rng.randrange(1, 4)
         elif rng.random() < 0.1:
             # tensors with more than 2**14 elements (fast paths for big data)
@@ -86,7 +86,7 @@ def gen_spec(rng):
 def gen_case(rng, tier="quick"):
     ops = []
     nops = rng.randrange(3, 10)
-    ops.append(["build", gen_spec(rng)])
+    ops.append(["build", gen_spec(rng, tier)])
     kinds = ["build", "export", "restart", "import", "use",
              "close", "ptt_file", "reexport", "roundtrip"]
     weights = [2, 3, 1, 3, 4, 1, 2, 1, 5]
@@ -114,7 +114,7 @@ def gen_case(rng, tier="quick"):
                 ops.append(["use", -1, _pick(rng, consumers)])
             continue
         if k == "build":
-            ops.append(["build", gen_spec(rng)])
+            ops.append(["build", gen_spec(rng, tier)])
         elif k == "export":
             ops.append(["export", rng.randrange(8), rng.randrange(3),
                         rng.random() < 0.5])
@@ -131,9 +131,9 @@ def gen_case(rng, tier="quick"):
             # import -> export again under another name (second generation)
             ops.append(["reexport", rng.randrange(8), rng.randrange(3)])
         else:
-            spec = gen_spec(rng)
+            spec = gen_spec(rng, tier)
             while spec["kind"] != "ptt":
-                spec = gen_spec(rng)
+                spec = gen_spec(rng, tier)
             # file index 3: a file the library names itself
             ops.append(["ptt_file", spec, rng.randrange(4),
                         _pick(rng, ["file", "simple"])])
